@@ -36,6 +36,9 @@ def main():
         d = os.path.join(root, sid)
         meta = json.load(open(os.path.join(d, "meta.json")))
         props = [meta["property"]] + [p for p in also if p != meta["property"]]
+        if meta.get("obsolete"):
+            print(sid, "OBSOLETE (" + meta["obsolete"][:120] + " ...)", flush=True)
+            continue
         base = "/dev/shm" if os.path.isdir("/dev/shm") else tempfile.gettempdir()
         scratch = tempfile.mkdtemp(prefix="zc-seed-", dir=base)
         try:
